@@ -431,16 +431,33 @@ pub fn conclude(property: &str, engine: &str, seed: u64, violations: &[Violation
 // ---------------------------------------------------------------------------------------------
 // delta debugging
 
+static MINIMISE_DEADLINE_MS: AtomicU64 = AtomicU64::new(u64::MAX);
+static PROCESS_START: std::sync::OnceLock<Instant> = std::sync::OnceLock::new();
+
+fn now_ms() -> u64 {
+    PROCESS_START.get_or_init(Instant::now).elapsed().as_millis() as u64
+}
+
+/// Minimisation is bounded in wall-clock time as well as in evaluations: after `secs` seconds every
+/// `ddmin` returns the best candidate found so far (the unminimised case is still a valid replay).
+pub fn start_minimise_clock(secs: u64) {
+    MINIMISE_DEADLINE_MS.store(now_ms() + secs * 1000, Ordering::Relaxed);
+}
+
+pub fn minimise_time_left() -> bool {
+    now_ms() < MINIMISE_DEADLINE_MS.load(Ordering::Relaxed)
+}
+
 /// ddmin: smallest sub-sequence of `items` (order kept) for which `fails` still holds.
 /// `budget` bounds the number of predicate evaluations.
 pub fn ddmin<T: Clone>(items: &[T], budget: &mut usize, fails: &mut dyn FnMut(&[T]) -> bool) -> Vec<T> {
     let mut cur: Vec<T> = items.to_vec();
     let mut n = 2usize;
-    while cur.len() >= 2 && *budget > 0 {
+    while cur.len() >= 2 && *budget > 0 && minimise_time_left() {
         let chunk = (cur.len() + n - 1) / n;
         let mut reduced = false;
         let mut start = 0;
-        while start < cur.len() && *budget > 0 {
+        while start < cur.len() && *budget > 0 && minimise_time_left() {
             let end = (start + chunk).min(cur.len());
             // try the complement of [start, end)
             let mut cand: Vec<T> = Vec::with_capacity(cur.len() - (end - start));
